@@ -14,7 +14,9 @@
 (*      imports, each with a module, names, with/without trailing `;`, a   *)
 (*      comment before it (none/line/block) and possibly a blank line, and *)
 (*      a rest that uses a class no import brings in; several concrete     *)
-(*      layouts of the same abstract document (Render);                    *)
+(*      layouts of the same abstract document (Render), among them layouts *)
+(*      in which an import SPANS SEVERAL LINES; the class may be one the   *)
+(*      STANDARD LIBRARY exports (StdClasses, workspace with the library); *)
 (*   3. a small tokenizer/parser of the import section (ParseHeader) that  *)
 (*      stands for "still parses" inside the specification, and the        *)
 (*      abstract expectation of "import class K from module M" (Good);     *)
@@ -103,7 +105,10 @@ K == "Foo"
 BaseKeys == {"A", "B", "C"}
 ExtKeys  == {"W1", "W2", "N2", "N3"}
 BoundKeys == {"AK", "AK2", "EK"}
+\*   S  : an import of a module of the STANDARD LIBRARY (the workspace then holds the standard library)
+StdKeys == {"S"}
 ModOf(key) == CASE key = "A" -> "A" [] key = "B" -> "B" [] key = "C" -> "C"
+                [] key = "S" -> "std.map"
                 [] key \in {"AK", "AK2"} -> "A" [] key = "EK" -> "E"
                 [] key \in {"W1", "W2"} -> "W"
                 [] key = "N2" -> "Lib.Util"
@@ -111,6 +116,7 @@ ModOf(key) == CASE key = "A" -> "A" [] key = "B" -> "B" [] key = "C" -> "C"
 NamesOf(key) == CASE key = "A" -> <<"Other">>
                   [] key = "B" -> <<"Bar">>
                   [] key = "C" -> <<"Cat", "Cow">>
+                  [] key = "S" -> <<"Map">>
                   [] key \in {"AK", "EK"} -> <<K>>
                   [] key = "AK2" -> <<"Other", K>>
                   [] key = "W1" -> <<K>>
@@ -119,7 +125,27 @@ NamesOf(key) == CASE key = "A" -> <<"Other">>
                   [] key = "N3" -> <<"Core">>
 CommentKinds == {"none", "line", "block"}
 \* "local": the document itself declares a class K (K is bound without any import)
-Layouts == {"plain", "tight", "trail", "oneline", "stray", "local"}
+\* Multi-line layouts "<style>-<which>": the imports `which` selects ("last", "earlier": all but the last, "all")
+\* span SEVERAL LINES in the given style, the others are laid out as in "plain":
+\*   wrap    the member list wrapped, one name per line; the import's comment inside the braces
+\*   fromnl  `from M` on a line of its own; the comment behind the closing brace
+\*   tailnl  the last token of the import (`;`, or the module name when there is no `;`) on a line of its own;
+\*           the comment on a line of its own in front of it
+MultiStyles == {"wrap", "fromnl", "tailnl"}
+MultiWhich  == {"last", "earlier", "all"}
+MultiLayouts == {sty \o "-" \o w : sty \in MultiStyles, w \in MultiWhich}
+Layouts == {"plain", "tight", "trail", "oneline", "stray", "local"} \cup MultiLayouts
+StyleOf(layout) == CHOOSE sty \in MultiStyles : \E w \in MultiWhich : layout = sty \o "-" \o w
+WhichOf(layout) == CHOOSE w \in MultiWhich : \E sty \in MultiStyles : layout = sty \o "-" \o w
+
+\* Classes the STANDARD LIBRARY exports, the module that exports each, and a use of it (an int expression)
+StdClasses == {"Pair", "Triple", "Option", "List"}
+StdModOf(c) == CASE c \in {"Pair", "Triple"} -> "std.tuples" [] c = "Option" -> "std.option" [] c = "List" -> "std.list"
+UseOf(c) == CASE c = K -> "Foo.bar()"
+              [] c = "Pair" -> "Pair.init(1, 2).first()"
+              [] c = "Triple" -> "Triple.init(1, 2, 3).second()"
+              [] c = "Option" -> "Option.Some(1).valueMap(0, (x) -> x + 1)"
+              [] c = "List" -> "List.of(1).length()"
 
 \* the exporters of K: a sequence of module names drawn from A, E and the nested module Lib.Exp
 ExporterChoices == {<<"A">>, <<"A", "E">>, <<"Lib.Exp">>, <<"A", "E", "Lib.Exp">>}
@@ -149,13 +175,14 @@ Stmt(imp, tight) ==
 
 CommentText(imp) == IF imp.cmt = "line" THEN "// about " \o imp.mod ELSE "/* about " \o imp.mod \o " */"
 
-RestPlain == << "class Main {", "  function main(): int = Foo.bar()", "}" >>
+\* u: the expression that uses the class (UseOf)
+RestPlain(u) == << "class Main {", "  function main(): int = " \o u, "}" >>
 \* a document that already has syntax errors behind the class (the property speaks of NEW syntax errors)
-RestStray == RestPlain \o << "stray tokens" >>
-RestLocal == << "class Foo {", "  function bar(): int = 8", "}" >> \o RestPlain
-RestDoc   == << "/** The entry point. */", "class Main {", "  function main(): int = Foo.bar()", "}" >>
-RestTwo   == << "class Main {", "  function main(): int = Foo.bar()", "  function again(): int = 1 + Foo.bar()", "}",
-                "interface Last {}" >>
+RestStray(u) == RestPlain(u) \o << "stray tokens" >>
+RestLocal(u) == << "class Foo {", "  function bar(): int = 8", "}" >> \o RestPlain(u)
+RestDoc(u)   == << "/** The entry point. */", "class Main {", "  function main(): int = " \o u, "}" >>
+RestTwo(u)   == << "class Main {", "  function main(): int = " \o u, "  function again(): int = 1 + " \o u, "}",
+                   "interface Last {}" >>
 
 \* Lines of the import section, one import per line group.
 PlainImport(imp) ==
@@ -165,6 +192,29 @@ TightImport(imp) ==
   (IF imp.blank THEN <<"">> ELSE <<>>)
   \o (IF imp.cmt = "line" THEN <<CommentText(imp)>> ELSE <<>>)
   \o << (IF imp.cmt = "block" THEN CommentText(imp) \o " " ELSE "") \o Stmt(imp, TRUE) >>
+
+\* An import that spans several lines (MultiStyles).
+Indented(ss) == [i \in DOMAIN ss |-> "  " \o ss[i]]
+MultiImport(imp, sty) ==
+  LET semi == IF imp.semi THEN ";" ELSE ""
+      cmt  == IF imp.cmt = "none" THEN <<>> ELSE <<CommentText(imp)>>
+      n    == Len(imp.names)
+  IN (IF imp.blank THEN <<"">> ELSE <<>>) \o
+     (CASE sty = "wrap" ->
+             <<"import {">> \o Indented(cmt)
+             \o [i \in 1..n |-> "  " \o imp.names[i] \o (IF i < n THEN "," ELSE "")]
+             \o << "} from " \o imp.mod \o semi >>
+        [] sty = "fromnl" ->
+             << "import { " \o JoinWith(imp.names, ", ") \o " }" \o (IF imp.cmt = "none" THEN "" ELSE " " \o CommentText(imp)),
+                "  from " \o imp.mod \o semi >>
+        [] sty = "tailnl" ->
+             IF imp.semi
+             THEN << "import { " \o JoinWith(imp.names, ", ") \o " } from " \o imp.mod >> \o cmt \o << ";" >>
+             ELSE << "import { " \o JoinWith(imp.names, ", ") \o " } from" >> \o cmt \o << "  " \o imp.mod >>)
+MultiOrPlain(imps, i, layout) ==
+  LET w == WhichOf(layout)
+      multi == w = "all" \/ (w = "last" /\ i = Len(imps)) \/ (w = "earlier" /\ i < Len(imps))
+  IN IF multi THEN MultiImport(imps[i], StyleOf(layout)) ELSE PlainImport(imps[i])
 
 \* "trail": indented, the comment of import i+1 trails import i on the same line, the last import is
 \* trailed by a line comment
@@ -189,24 +239,27 @@ OneLine(imps, i, cur) ==
 
 Flatten(ss) == FoldLeft(LAMBDA acc, x : acc \o x, <<>>, ss)
 
-\* The lines of the concrete document (the text is JoinLines of it).
-Render(imps, layout) ==
+\* The lines of the concrete document (the text is JoinLines of it); u: the use of the class (UseOf).
+RenderU(imps, layout, u) ==
   LET n == Len(imps) IN
   CASE layout = "plain" ->
-         Flatten([i \in 1..n |-> PlainImport(imps[i])]) \o RestPlain \o <<"">>
+         Flatten([i \in 1..n |-> PlainImport(imps[i])]) \o RestPlain(u) \o <<"">>
     [] layout = "local" ->
-         Flatten([i \in 1..n |-> PlainImport(imps[i])]) \o RestLocal \o <<"">>
+         Flatten([i \in 1..n |-> PlainImport(imps[i])]) \o RestLocal(u) \o <<"">>
     [] layout = "stray" ->
-         Flatten([i \in 1..n |-> PlainImport(imps[i])]) \o RestStray \o <<"">>
+         Flatten([i \in 1..n |-> PlainImport(imps[i])]) \o RestStray(u) \o <<"">>
     [] layout = "tight" ->
-         <<"">> \o Flatten([i \in 1..n |-> TightImport(imps[i])]) \o <<"">> \o RestDoc
+         <<"">> \o Flatten([i \in 1..n |-> TightImport(imps[i])]) \o <<"">> \o RestDoc(u)
     [] layout = "trail" ->
-         Flatten([i \in 1..n |-> TrailImport(imps, i)]) \o RestTwo \o <<"">>
+         Flatten([i \in 1..n |-> TrailImport(imps, i)]) \o RestTwo(u) \o <<"">>
     [] layout = "oneline" ->
          LET head == OneLine(imps, 1, "")
              last == head[Len(head)]
          IN SubSeq(head, 1, Len(head) - 1)
-            \o << (IF last = "" THEN "" ELSE last \o " ") \o RestPlain[1] >> \o Tail(RestPlain) \o <<"">>
+            \o << (IF last = "" THEN "" ELSE last \o " ") \o RestPlain(u)[1] >> \o Tail(RestPlain(u)) \o <<"">>
+    [] layout \in MultiLayouts ->
+         Flatten([i \in 1..n |-> MultiOrPlain(imps, i, layout)]) \o RestPlain(u) \o <<"">>
+Render(imps, layout) == RenderU(imps, layout, UseOf(K))
 
 -----------------------------------------------------------------------------
 (* 3. The import section as the specification reads it *)
